@@ -25,3 +25,79 @@ Section SerdeEquiv.
   Proof. destruct h; reflexivity. Qed.
 
 End SerdeEquiv.
+
+(* ---- the up-front reservation of the two deserialization visitors (C19: "a length claimed by the input
+   never causes more than a small bounded up-front reservation (1024 elements)").  The statements that
+   come BEFORE any element is read -- `let values = MiniVec::with_capacity(map_size_hint(seq.size_hint()))`
+   in VecVisitor::visit_seq and
+     let hint = map_size_hint(seq.size_hint());
+     if let Some(additional) = hint.checked_sub(self.0.len()) { self.0.reserve(additional) }
+   in VecInPlaceVisitor::visit_seq -- are taken from the regenerated bodies and evaluated in a world that
+   answers `size_hint` with ANY claimed hint, `len` with ANY destination length, and records every
+   capacity / reservation request: each request is exactly min(hint, 1024) resp. min(hint, 1024) - len
+   (none when that is negative), hence at most 1024 elements, whatever the input claims and whatever the
+   destination held. ---- *)
+Section Reservation.
+  Variable cfg : tcfg.
+
+  Record rw := { r_hint : option Z; r_len : Z; r_log : list Z }.
+  Definition rprim (f : string) (args : list val) (w : rw) : outcome unit val * rw :=
+    if String.eqb f ".size_hint" then (Norm (opt_val (r_hint w)), w)
+    else if String.eqb f ".len" then (Norm (VInt (r_len w)), w)
+    else if String.eqb f "field:0" then (Norm VUnit, w)
+    else if String.eqb f ".reserve" then
+      match args with
+      | [_; VInt a] => (Norm VUnit, {| r_hint := r_hint w; r_len := r_len w; r_log := r_log w ++ [a] |})
+      | _ => (Stuck "reserve", w)
+      end
+    else if String.eqb f "MiniVec::with_capacity" then
+      match args with
+      | [VInt c] => (Norm VUnit, {| r_hint := r_hint w; r_len := r_len w; r_log := r_log w ++ [c] |})
+      | _ => (Stuck "with_capacity", w)
+      end
+    else (Stuck ("rprim: " ++ f), w).
+
+  Definition prefix (n : nat) (fa : fn_ast) : list stmt :=
+    match fn_body fa with Blk ss _ => firstn n ss end.
+
+  Definition run_prefix (n : nat) (fa : fn_ast) (h : option Z) (l : Z) : outcome unit val * rw :=
+    @exec_stmts unit rw cfg gen_funs (direct rprim) 60 (prefix n fa) [("seq", VUnit); ("self", VUnit)]
+               {| r_hint := h; r_len := l; r_log := [] |}
+               (fun v w => (Norm v, w)) (fun _ w => (Norm VUnit, w)).
+
+  Definition hint_ok (h : option Z) : Prop := match h with Some n => 0 <= n < W64 | None => True end.
+
+  Lemma inplace_reservation h l :
+    hint_ok h -> 0 <= l < W64 ->
+    run_prefix 2 serde__VecInPlaceVisitor__visit_seq_ast h l =
+      (Norm VUnit, {| r_hint := h; r_len := l;
+                      r_log := if 0 <=? map_size_hint h - l then [map_size_hint h - l] else [] |}).
+  Proof.
+    intros Hh Hl. unfold run_prefix, prefix, map_size_hint.
+    destruct h as [n|]; cbv -[Z.sub Z.leb Z.ltb Z.min Z.add W64];
+      match goal with |- context [0 <=? ?x] => destruct (0 <=? x) end; reflexivity.
+  Qed.
+
+  Lemma fresh_reservation h :
+    hint_ok h ->
+    run_prefix 1 serde__VecVisitor__visit_seq_ast h 0 =
+      (Norm VUnit, {| r_hint := h; r_len := 0; r_log := [map_size_hint h] |}).
+  Proof. intros Hh. unfold run_prefix, prefix, map_size_hint. destruct h as [n|]; reflexivity. Qed.
+
+  (* whatever is claimed, whatever the destination held: no up-front request above 1024 elements *)
+  Theorem upfront_reservation_bounded h l :
+    hint_ok h -> 0 <= l < W64 ->
+    fst (run_prefix 2 serde__VecInPlaceVisitor__visit_seq_ast h l) = Norm VUnit /\
+    fst (run_prefix 1 serde__VecVisitor__visit_seq_ast h 0) = Norm VUnit /\
+    Forall (fun a => 0 <= a <= 1024) (r_log (snd (run_prefix 2 serde__VecInPlaceVisitor__visit_seq_ast h l))) /\
+    Forall (fun a => 0 <= a <= 1024) (r_log (snd (run_prefix 1 serde__VecVisitor__visit_seq_ast h 0))).
+  Proof.
+    intros Hh Hl. rewrite (inplace_reservation h l Hh Hl), (fresh_reservation h Hh). cbn [fst snd r_log].
+    split; [reflexivity|]. split; [reflexivity|].
+    assert (B : 0 <= map_size_hint h <= 1024).
+    { unfold map_size_hint. destruct h as [n|]; simpl in Hh; lia. }
+    split.
+    - destruct (Z.leb_spec 0 (map_size_hint h - l)); constructor; [lia|constructor].
+    - constructor; [lia|constructor].
+  Qed.
+End Reservation.
